@@ -11,7 +11,7 @@ use sux::dict::{EliasFano, EliasFanoBuilder};
 use sux::prelude::*;
 
 macro_rules! ef_c04 {
-    ($name:ident, $n:expr, $u:expr) => {
+    ($name:ident, $n:expr, $u:expr, $l:expr) => {
         pub mod $name {
             use super::super::*;
             const N: usize = $n;
